@@ -1,87 +1,137 @@
 ------------------------------ MODULE EnvObj ------------------------------
-(* C19, history dimension: one Env instance as a small state machine.  Operations on the instance:
-   request the EnvGen array (fmt), the IEnvGen array (ifmt), evaluate at a time (at), use it in an EnvGen
-   (ugenE) or an IEnvGen (ugenI) of a SynthDef, in both inside one SynthDef in either order (ugenEI,
-   ugenIE), assign levels / times / curves / release node / loop node / offset.
-   L1 (the property): every observation is a function of the CURRENT specification of the envelope -
-   never of what was asked before (operators Obs*, shared with TraceEnvObj).
-   L2 (implementation shaped): the instance keeps the two arrays once computed and drops them when the
-   specification is assigned (Invalidate = TRUE); evaluation walks the kept EnvGen array.  Step invariant
-   Coherent: L2 answers what L1 prescribes.  With Invalidate = FALSE TLC finds the stale-array history
-   (used as a sensitivity run: the invariant must fail there).                                       *)
+(* C19, history dimension: Env instances as a small state machine.  Up to two instances: the second one is
+   derived from the first (range / exprange / curverange).  Operations on either instance: request the EnvGen
+   array (fmt), the IEnvGen array (ifmt), evaluate at a time (at), read the duration (dur), use it in an EnvGen
+   / IEnvGen / both of a SynthDef, assign levels / times / curves / release node / loop node / offset, assign
+   the duration.
+   L1 (the property): every observation on an instance is a function of THAT instance's current
+   specification (abs[i], changed only by operations on i): never of what was asked before, never of what
+   happened to the other instance.
+   L2 (implementation shaped): an instance holds its times in a list cell (a derived instance is a shallow
+   copy: ShareTimes = TRUE means it starts with the SAME cell), keeps the two arrays once computed and drops
+   them when its specification is assigned (Invalidate); assigning times or the duration binds a new cell
+   unless InPlace.  Step invariant Coherent: L2 answers what L1 prescribes.  Sensitivity configurations (the
+   invariant must fail): Invalidate = FALSE (stale arrays), InPlace = TRUE with ShareTimes = TRUE (a shared
+   cell rescaled under the other instance).                                                            *)
 EXTENDS Integers, Sequences, FiniteSets, TLC
-CONSTANTS Invalidate, MaxLen
-VARIABLES spec, cE, cI, last, len
-vars == <<spec, cE, cI, last, len>>
-E == INSTANCE Env WITH env <- spec, op <- "", tq <- 0, fmt <- <<>>, val <- <<>>, part <- <<>>,
+CONSTANTS Invalidate, ShareTimes, InPlace, MaxLen, Small
+VARIABLES inst,      \* i -> [lv, tmc (cell id), cv, rel, loop, off, cE, cI] or <<>> when the instance does not exist
+          cells,     \* sequence of time lists (the heap)
+          abs,       \* i -> abstract specification (L1) or <<>>
+          last, len
+vars == <<inst, cells, abs, last, len>>
+E == INSTANCE Env WITH env <- <<>>, op <- "", tq <- 0, fmt <- <<>>, val <- <<>>, part <- <<>>,
                        Levels <- {}, Times <- {}, Curves <- {}, MaxSeg <- 0, MaxPts <- 0, QTicks <- {}
 
-(* ---------------- L1: observations as functions of the current specification ---------------- *)
-Ctl == <<E!One, E!One, E!Z, E!One, E!Z>>           \* gate, levelScale, levelBias, timeScale, doneAction used by the drivers
-IndexIn == <<1, 2>>                                \* the IEnvGen index argument (1/2)
-ObsFmt(s) == E!Format(s)
-ObsIFmt(s) == E!Interp(s)
-ObsUgenE(s) == IF E!ValidCurves(s) THEN E!R("ok", E!EnvGenInputs(s, Ctl)) ELSE E!R("exc", <<>>)
-ObsUgenI(s) == IF E!ValidCurves(s) THEN E!R("ok", <<E!Fix(IndexIn)>> \o E!InterpSeq(s)) ELSE E!R("exc", <<>>)
+Ctl == <<E!One, E!One, E!Z, E!One, E!Z>>
+IndexIn == <<1, 2>>
+(* ---------------- L1: observations as functions of one specification ---------------- *)
+ObsFmt(s) == E!FormatSeq(s)
+ObsIFmt(s) == E!InterpSeq(s)
+ObsUgenE(s) == E!EnvGenInputs(s, Ctl)
+ObsUgenI(s) == <<E!Fix(IndexIn)>> \o E!InterpSeq(s)
 ObsAtExact(s, t) == E!Fix(E!AtExact(s, t))
+ObsDur(s) == E!Fix(E!Duration(s))
 
 (* ---------------- design model ---------------- *)
-LevelLists == {<<E!Z, E!One, E!Z>>, <<E!One, <<1, 2>>, <<0 - 1, 2>>>>}
-TimeLists == {<<E!One, E!One>>, <<<<1, 2>>, E!One>>}
-CurveLists == {<<E!Cv("lin")>>, <<E!Cv("hold"), E!Cv("lin")>>, <<E!Cv("step")>>}
-NodesS == {<<>>, <<1>>}
-Offs == {E!Z, E!One}
-QT == {0, 32, 64, 96, 200}
+LevelLists == {<<E!Z, E!One, E!Z>>, <<E!One, <<1, 2>>, E!Z>>}
+TimeLists == {<<E!One, E!One>>, <<<<1, 2>>, <<3, 2>>>>}
+CurveLists == IF Small THEN {<<E!Cv("hold"), E!Cv("lin")>>} ELSE {<<E!Cv("lin")>>, <<E!Cv("hold"), E!Cv("lin")>>}
+Durs == IF Small THEN {<<4, 1>>} ELSE {E!One, <<4, 1>>}
+Ranges == IF Small THEN {<<<<1, 2>>, E!One>>} ELSE {<<E!Z, <<2, 1>>>>, <<<<1, 2>>, E!One>>}
+QT == IF Small THEN {32, 200} ELSE {0, 32, 96, 200}
+Ids == {1, 2}
 
-Init == /\ spec \in {E!MkEnv(lv, tm, cv, <<>>, <<>>, E!Z) : lv \in LevelLists, tm \in TimeLists, cv \in CurveLists}
-        /\ cE = <<>> /\ cI = <<>> /\ last = [n |-> "new", obs |-> <<>>, t |-> 0] /\ len = 0
-\* the arrays as the instance delivers them: computed on first request, kept afterwards
-ArrE == IF cE # <<>> THEN cE[1] ELSE E!FormatSeq(spec)
-ArrI == IF cI # <<>> THEN cI[1] ELSE E!InterpSeq(spec)
-Obs(name, v, t) == len < MaxLen /\ last' = [n |-> name, obs |-> v, t |-> t] /\ len' = len + 1
-\* value from the kept EnvGen array (exact shapes only in this model): walk it as the evaluator does
+\* the concrete specification an instance currently denotes
+Conc(i) == E!MkEnv(inst[i].lv, cells[inst[i].tmc], inst[i].cv, inst[i].rel, inst[i].loop, inst[i].off)
+Exists(i) == inst[i] # <<>>
+NewInst(lv, c, cv, rel, loop, off) == [lv |-> lv, tmc |-> c, cv |-> cv, rel |-> rel, loop |-> loop, off |-> off, cE |-> <<>>, cI |-> <<>>]
+
+Init == /\ \E lv \in LevelLists, tm \in TimeLists, cv \in CurveLists :
+             /\ inst = <<NewInst(lv, 1, cv, <<>>, <<>>, E!Z), <<>>>>
+             /\ cells = <<tm>>
+             /\ abs = <<E!MkEnv(lv, tm, cv, <<>>, <<>>, E!Z), <<>>>>
+        /\ last = [n |-> "new", i |-> 1, obs |-> <<>>, t |-> 0] /\ len = 0
+ArrE(i) == IF inst[i].cE # <<>> THEN inst[i].cE[1] ELSE E!FormatSeq(Conc(i))
+ArrI(i) == IF inst[i].cI # <<>> THEN inst[i].cI[1] ELSE E!InterpSeq(Conc(i))
+Step(name, i, v, t) == len < MaxLen /\ last' = [n |-> name, i |-> i, obs |-> v, t |-> t] /\ len' = len + 1
 WalkValue(f, tt) ==
     LET w == E!AtFmt(f, 1, f[1], 0, tt) IN
     IF Len(w) = 4 THEN w[1]
     ELSE IF w[5] = 0 THEN w[2] ELSE IF w[5] = 8 THEN w[1]
     ELSE (w[1] * w[4] + w[3] * (w[2] - w[1])) \div w[4]
-Fmt == /\ cE' = <<ArrE>> /\ Obs("fmt", ArrE, 0) /\ UNCHANGED <<spec, cI>>
-IFmt == /\ cI' = <<ArrI>> /\ Obs("ifmt", ArrI, 0) /\ UNCHANGED <<spec, cE>>
-At == \E t \in QT : /\ cE' = <<ArrE>> /\ Obs("at", WalkValue(ArrE, E!Clamp(spec, t)), t) /\ UNCHANGED <<spec, cI>>
-UgenE == /\ cE' = <<ArrE>> /\ Obs("ugenE", [i \in 1..5 |-> E!Fix(Ctl[i])] \o ArrE, 0) /\ UNCHANGED <<spec, cI>>
-UgenI == /\ cI' = <<ArrI>> /\ Obs("ugenI", <<E!Fix(IndexIn)>> \o ArrI, 0) /\ UNCHANGED <<spec, cE>>
-UgenBoth == /\ cE' = <<ArrE>> /\ cI' = <<ArrI>>
-            /\ Obs("ugenEI", <<[i \in 1..5 |-> E!Fix(Ctl[i])] \o ArrE, <<E!Fix(IndexIn)>> \o ArrI>>, 0) /\ UNCHANGED spec
-Assign(s2, name) == /\ len < MaxLen /\ spec' = s2 /\ s2 # spec
-                    /\ IF Invalidate THEN cE' = <<>> /\ cI' = <<>> ELSE UNCHANGED <<cE, cI>>
-                    /\ last' = [n |-> name, obs |-> <<>>, t |-> 0] /\ len' = len + 1
-SetLevels == \E lv \in LevelLists : Assign([spec EXCEPT !.lv = lv], "set_levels")
-SetTimes == \E tm \in TimeLists : Assign([spec EXCEPT !.tm = tm], "set_times")
-SetCurves == \E cv \in CurveLists : Assign([spec EXCEPT !.cv = cv], "set_curves")
-SetRel == \E r \in NodesS : Assign([spec EXCEPT !.rel = r], "set_release_node")
-SetLoop == \E r \in {<<>>, <<0>>} : Assign([spec EXCEPT !.loop = r], "set_loop_node")
-SetOff == \E o \in Offs : Assign([spec EXCEPT !.off = o], "set_offset")
-Next == Fmt \/ IFmt \/ At \/ UgenE \/ UgenI \/ UgenBoth
-        \/ SetLevels \/ SetTimes \/ SetCurves \/ SetRel \/ SetLoop \/ SetOff
+KeepE(i) == inst' = [inst EXCEPT ![i].cE = <<ArrE(i)>>]
+KeepI(i) == inst' = [inst EXCEPT ![i].cI = <<ArrI(i)>>]
+Fmt == \E i \in Ids : Exists(i) /\ KeepE(i) /\ Step("fmt", i, ArrE(i), 0) /\ UNCHANGED <<cells, abs>>
+IFmt == \E i \in Ids : Exists(i) /\ KeepI(i) /\ Step("ifmt", i, ArrI(i), 0) /\ UNCHANGED <<cells, abs>>
+At == \E i \in Ids, t \in QT : Exists(i) /\ KeepE(i) /\ UNCHANGED <<cells, abs>>
+                               /\ Step("at", i, WalkValue(ArrE(i), E!Max(0, t - E!Ticks(inst[i].off))), t)
+Dur == \E i \in Ids : Exists(i) /\ Step("dur", i, E!Fix(E!Duration(Conc(i))), 0) /\ UNCHANGED <<inst, cells, abs>>
+UgenE == \E i \in Ids : Exists(i) /\ KeepE(i) /\ UNCHANGED <<cells, abs>>
+                        /\ Step("ugenE", i, [k \in 1..5 |-> E!Fix(Ctl[k])] \o ArrE(i), 0)
+UgenI == \E i \in Ids : Exists(i) /\ KeepI(i) /\ Step("ugenI", i, <<E!Fix(IndexIn)>> \o ArrI(i), 0) /\ UNCHANGED <<cells, abs>>
+UgenBoth == \E i \in Ids : Exists(i) /\ inst' = [inst EXCEPT ![i].cE = <<ArrE(i)>>, ![i].cI = <<ArrI(i)>>]
+                           /\ Step("ugenEI", i, <<[k \in 1..5 |-> E!Fix(Ctl[k])] \o ArrE(i), <<E!Fix(IndexIn)>> \o ArrI(i)>>, 0)
+                           /\ UNCHANGED <<cells, abs>>
+Drop(r) == IF Invalidate THEN [r EXCEPT !.cE = <<>>, !.cI = <<>>] ELSE r
+\* assignment of an attribute other than the times
+Assign(i, r2, a2, name) == /\ Exists(i) /\ a2 # abs[i]
+                           /\ inst' = [inst EXCEPT ![i] = Drop(r2)] /\ abs' = [abs EXCEPT ![i] = a2]
+                           /\ Step(name, i, <<>>, 0) /\ UNCHANGED cells
+SetLevels == \E i \in Ids, lv \in LevelLists : Exists(i) /\ Assign(i, [inst[i] EXCEPT !.lv = lv], [abs[i] EXCEPT !.lv = lv], "set_levels")
+SetCurves == \E i \in Ids, cv \in {<<E!Cv("lin")>>, <<E!Cv("hold"), E!Cv("lin")>>} : Exists(i) /\ Assign(i, [inst[i] EXCEPT !.cv = cv], [abs[i] EXCEPT !.cv = cv], "set_curves")
+SetRel == \E i \in Ids, r \in {<<>>, <<1>>} : Exists(i) /\ Assign(i, [inst[i] EXCEPT !.rel = r], [abs[i] EXCEPT !.rel = r], "set_release_node")
+SetOff == \E i \in Ids, o \in {E!Z, E!One} : Exists(i) /\ Assign(i, [inst[i] EXCEPT !.off = o], [abs[i] EXCEPT !.off = o], "set_offset")
+\* new times: a new cell, or the old cell overwritten (InPlace)
+BindTimes(i, tm, a2, name) ==
+    /\ Exists(i) /\ a2 # abs[i] /\ abs' = [abs EXCEPT ![i] = a2] /\ Step(name, i, <<>>, 0)
+    /\ IF InPlace
+       THEN cells' = [cells EXCEPT ![inst[i].tmc] = tm] /\ inst' = [inst EXCEPT ![i] = Drop(inst[i])]
+       ELSE cells' = Append(cells, tm) /\ inst' = [inst EXCEPT ![i] = Drop([inst[i] EXCEPT !.tmc = Len(cells) + 1])]
+SetTimes == \E i \in Ids, tm \in TimeLists : Exists(i) /\ BindTimes(i, tm, [abs[i] EXCEPT !.tm = tm], "set_times")
+SetDuration == \E i \in Ids, d \in Durs :
+                 Exists(i) /\ BindTimes(i, E!Rescaled(Conc(i), d).tm, E!Rescaled(abs[i], d), "set_duration")
+\* a shallow copy with mapped levels: everything but the levels is what the source holds (cell included)
+Derive == \E rg \in Ranges, kind \in {"range", "exprange"} :
+            /\ ~Exists(2) /\ E!Derivable(abs[1], kind)
+            /\ LET lv2 == E!DerivedLevels(Conc(1), kind, rg[1], rg[2]) IN
+               /\ IF ShareTimes THEN cells' = cells ELSE cells' = Append(cells, cells[inst[1].tmc])
+               /\ inst' = [inst EXCEPT ![2] = Drop([inst[1] EXCEPT !.lv = lv2, !.tmc = IF ShareTimes THEN inst[1].tmc ELSE Len(cells) + 1])]
+               /\ abs' = [abs EXCEPT ![2] = E!Derived(abs[1], kind, rg[1], rg[2])]
+            /\ Step("derive", 1, <<>>, 0)
+Next == Fmt \/ IFmt \/ At \/ Dur \/ UgenE \/ UgenI \/ UgenBoth \/ SetLevels \/ SetTimes \/ SetCurves \/ SetRel \/ SetOff
+        \/ SetDuration \/ Derive
 Spec == Init /\ [][Next]_vars
 
-\* L2 => L1: what the instance answered is what the current specification prescribes
+\* L2 => L1: what instance i answered is what ITS abstract specification prescribes
 Coherent ==
-    CASE last.n = "fmt" -> last.obs = ObsFmt(spec).v
-      [] last.n = "ifmt" -> last.obs = ObsIFmt(spec).v
-      [] last.n = "at" -> last.obs = ObsAtExact(spec, last.t)
-      [] last.n = "ugenE" -> last.obs = ObsUgenE(spec).v
-      [] last.n = "ugenI" -> last.obs = ObsUgenI(spec).v
-      [] last.n = "ugenEI" -> last.obs = <<ObsUgenE(spec).v, ObsUgenI(spec).v>>
+    LET s == abs[last.i] IN
+    CASE last.n = "fmt" -> last.obs = ObsFmt(s)
+      [] last.n = "ifmt" -> last.obs = ObsIFmt(s)
+      [] last.n = "at" -> last.obs = ObsAtExact(s, last.t)
+      [] last.n = "dur" -> last.obs = ObsDur(s)
+      [] last.n = "ugenE" -> last.obs = ObsUgenE(s)
+      [] last.n = "ugenI" -> last.obs = ObsUgenI(s)
+      [] last.n = "ugenEI" -> last.obs = <<ObsUgenE(s), ObsUgenI(s)>>
       [] OTHER -> TRUE
-\* the kept arrays always belong to the current specification
-CachesCurrent == (cE # <<>> => cE[1] = E!FormatSeq(spec)) /\ (cI # <<>> => cI[1] = E!InterpSeq(spec))
-\* the two layouts carry the same breakpoints: per segment (level, time, shape, curvature) vs (time, shape, curvature, level)
-LayoutsAgree ==
-    LET a == E!FormatSeq(spec)
-        b == E!InterpSeq(spec)
-        n == E!NSeg(spec) IN
-    /\ a[1] = b[2] /\ a[2] = b[3]
-    /\ \A i \in 1..n : a[4 * i + 1] = b[4 * i + 4] /\ a[4 * i + 2] = b[4 * i + 1] /\ a[4 * i + 3] = b[4 * i + 2]
-                       /\ a[4 * i + 4] = b[4 * i + 3]
+\* what an instance denotes and keeps always belongs to its own abstract specification
+Independent == \A i \in Ids : Exists(i) =>
+    /\ Conc(i) = abs[i]
+    /\ (inst[i].cE # <<>> => inst[i].cE[1] = E!FormatSeq(abs[i]))
+    /\ (inst[i].cI # <<>> => inst[i].cI[1] = E!InterpSeq(abs[i]))
+\* the duration law: after assigning d the times sum to d and keep their proportions
+\* rescaling any current specification to d gives times that sum to d in the old proportions
+DurationLaw == \A i \in Ids, d \in Durs : Exists(i) =>
+    LET s == abs[i]
+        r == E!Rescaled(s, d) IN
+    /\ E!REq(E!Duration(r), d)
+    /\ \A j, k \in 1..E!NSeg(s) : E!REq(E!RMul(r.tm[j], E!TimeOf(s, k)), E!RMul(r.tm[k], E!TimeOf(s, j)))
+    /\ r.lv = s.lv /\ r.cv = s.cv
+LayoutsAgree == \A i \in Ids : Exists(i) =>
+    LET a == E!FormatSeq(abs[i])
+        b == E!InterpSeq(abs[i])
+        n == E!NSeg(abs[i]) IN
+    /\ a[1] = b[2] /\ a[2] = b[3] /\ b[4] = E!Fix(E!Duration(abs[i]))
+    /\ \A k \in 1..n : a[4 * k + 1] = b[4 * k + 4] /\ a[4 * k + 2] = b[4 * k + 1] /\ a[4 * k + 3] = b[4 * k + 2]
+                       /\ a[4 * k + 4] = b[4 * k + 3]
 =============================================================================
